@@ -1453,12 +1453,14 @@ func (p *Parser) parseObjectLiteral() (object ObjectExpr) {
 			}
 
 			// PropertyName
+			isString := false
 			if data != nil && !method.Generator && (p.tt == EqToken || p.tt == CommaToken || p.tt == CloseBraceToken || p.tt == ColonToken || p.tt == OpenParenToken) {
 				method.Name.Literal = LiteralExpr{IdentifierToken, data}
 				method.Async = false
 				method.Get = false
 				method.Set = false
 			} else if !method.Name.IsSet() { // did not parse async [LT]
+				isString = p.tt == StringToken
 				method.Name.PropertyName = p.parsePropertyName("object literal")
 				if !method.Name.IsSet() {
 					return
@@ -1487,7 +1489,7 @@ func (p *Parser) parseObjectLiteral() (object ObjectExpr) {
 				p.next()
 				property.Name = &method.Name.PropertyName
 				property.Value = p.parseAssignExprOrParam()
-			} else if method.Name.IsComputed() || !p.isIdentifierReference(method.Name.Literal.TokenType) {
+			} else if method.Name.IsComputed() || isString || !p.isIdentifierReference(method.Name.Literal.TokenType) {
 				p.fail("object literal", ColonToken, OpenParenToken)
 				return
 			} else {
